@@ -72,6 +72,9 @@ def check_case(case, ctx):
             discards += bool(op[1])
         elif name == 'purge':
             Pregex.purge()
+        elif name == 'wear':
+            pat.wear(p, op[1])           # a long history of ordinary matching calls on this very instance
+            ctx.count('history:wear')
         else:
             t = texts[op[1] % len(texts)]
             ms = list(rx.finditer(t))
@@ -126,6 +129,7 @@ def strategy(spec, ctx):
         st.tuples(st.sampled_from(MATCH_OPS), st.integers(0, 11)).map(list),
         st.tuples(st.sampled_from(MATCH_OPS), st.sampled_from([0, 0, 0, 1])).map(list),      # the same (longest) texts again and again
     )
+    op = st.one_of(*[op] * 12, st.sampled_from([130, 130, 300, 1100]).map(lambda n: ['wear', n]))
     feats = dsl.swarm_features(ctx.seed, ctx.shard_index)
     return st.fixed_dictionaries({
         'tree': dsl.tree_strategy(feats, max_leaves=5),
@@ -136,10 +140,36 @@ def strategy(spec, ctx):
     })
 
 
+def anchored_alternations():
+    """Every way of anchoring the alternatives of a two- or three-way alternation (none / start / end / line start / line end
+    each), over a few operands, asked through every matching method before and after compiling: an anchor binds tighter than
+    '|', so whether a pattern 'is anchored' can never be read off its first and last characters."""
+    anchors = [None, 'start', 'end', 'lstart', 'lend']
+    ws = ['q', 'plus', 'class', ['cls', ['named', 'AnyWhitespace']], 0, None, True]
+    operands = [['lit', 'a', True], ws, ['lit', 'ab', False]]
+
+    def wrap(a, x):
+        return x if a is None else ['anchor', a, 'class', x]
+    ops = [[m, i] for i in range(8) for m in ('has', 'exact', 'gm')] + [['compile']] + [[m, i] for i in range(8) for m in ('has', 'exact', 'gmp')] + \
+          [['gcp', True]] + [['has', i] for i in range(8)]
+    xt = ['a  ', '  a', ' a \n', 'ab', ' \n ab', 'hello  ', 'a\nab\n ', ' ']
+    for a1 in anchors:
+        for a2 in anchors:
+            for x in operands:
+                for y in operands:
+                    yield {'tree': ['alt', 'class', [wrap(a1, x), wrap(a2, y)]], 'tseed': 1, 'big': 0, 'ops': ops, 'xt': xt}
+            for a3 in anchors:
+                yield {'tree': ['alt', 'method', [wrap(a1, operands[0]), wrap(a2, operands[1]), wrap(a3, operands[2])]], 'tseed': 2, 'big': 0, 'ops': ops, 'xt': xt}
+
+
 def shards(tier):
-    n = 16 if tier == 'quick' else 64
-    return [{'examples': 800 if tier == 'quick' else 6000} for _ in range(n)]
+    n = 15 if tier == 'quick' else 63
+    return [{'examples': 800 if tier == 'quick' else 6000} for _ in range(n)] + [{'mode': 'anchored_alternations'}]
 
 
 def run_shard(spec, ctx):
+    if spec.get('mode') == 'anchored_alternations':
+        from pbt.common import run_enumeration
+        run_enumeration(ctx, anchored_alternations(), check_case, 'two- and three-way alternations with every combination of anchors on the alternatives')
+        return
     run_hypothesis(ctx, strategy(spec, ctx), check_case, spec['examples'])
